@@ -283,6 +283,63 @@ def reader_by_interpretation(facts, fs, layout):
     return dict(readers.pop()), splits
 
 
+def from_str_assert_audit(facts, fs):
+    """every path of from_str — 0..4 pieces available, each available piece parsing or failing to parse, every internal branch — with
+    the parsed numbers symbolic: what each rustc-emitted check (shift amount, index bound, overflow flag) saw.  A check that was
+    reached and saw operands that are compile-time constants satisfying it on EVERY path cannot fail for any input text."""
+    from absint import IterObj, INT_WIDTH
+    import re as _re
+    log = {}
+
+    def mk(avail, fail):
+        def h(interp, name, args, t, body):
+            seg = last_seg(name)
+            r = hook(interp, name, args, t, body)
+            if r is not None:
+                return r
+            if name.startswith('core::str::<impl str>::'):
+                a0 = interp.deref_all(args[0]) if args else None
+                if seg in ('splitn', 'split', 'rsplitn', 'split_terminator'):
+                    return ('iter', IterObj([('ref', Cell(('piece', i))) for i in range(avail)]))
+                if seg in ('trim', 'trim_start', 'trim_end', 'as_ref') and a0 is not None:
+                    return args[0]
+                if seg == 'parse' and a0 is not None and a0[0] == 'piece':
+                    ty = [g for g in (t.get('gargs') or []) if g in INT_WIDTH]
+                    if not ty:
+                        raise Unmodelled('parse into a non-integer type')
+                    if a0[1] == fail:
+                        return ('adt', 'core::result::Result', 1, [Cell(('opaque', 'ParseIntError'))])
+                    return ('adt', 'core::result::Result', 0, [Cell(bv_field('piece%d' % a0[1], INT_WIDTH[ty[-1]]))])
+            if name.endswith('::from_str_radix') and args:
+                a0 = interp.deref_all(args[0])
+                m = _re.search(r'<impl (u\d+|usize)>', name)
+                if a0 is not None and a0[0] == 'piece' and m:
+                    if a0[1] == fail:
+                        return ('adt', 'core::result::Result', 1, [Cell(('opaque', 'ParseIntError'))])
+                    return ('adt', 'core::result::Result', 0, [Cell(bv_field('piece%d' % a0[1], INT_WIDTH[m.group(1)]))])
+            return None
+        return h
+    n = 0
+    for avail in range(0, 5):
+        for fail in [None] + list(range(avail)):
+            def one(choices, avail=avail, fail=fail):
+                it = Interp(facts, Order({}), opaque_call=mk(avail, fail))
+                it.bv_arith = arith
+                it.assert_log = {}
+                it.choices = list(choices)
+                try:
+                    r = it.run_body(fs, [('ref', Cell(('str', 'input')))])
+                finally:
+                    for k, v in it.assert_log.items():
+                        log.setdefault(k, set()).update(v)
+                return it.oracle_log, r
+            for _log, r in absint.explore(one):
+                n += 1
+                if r and r[0] == 'panic':
+                    raise Unmodelled('from_str has a panicking path')
+    return log, n
+
+
 def writer_by_interpretation(facts, fmt, layout, T):
     """Display::fmt interpreted on a symbolic word: the values handed to the formatting machinery, in the order they are handed over.
     [(field, radix, integer type)] — whatever accessors, structs or helpers the printed values travel through."""
@@ -354,6 +411,42 @@ def check_order(ctx, facts, rule, T):
         if len(cmpb) != 1 or len(pcmp) != 1:
             raise Unmodelled('Ord::cmp / PartialOrd::partial_cmp of HLCTimestamp not found (%d/%d)' % (len(cmpb), len(pcmp)))
         accessor = {T + '::' + f: f for f in order_fields}
+        LAYOUT = {'seconds': 32, 'fractional': 24, 'counter': 8, 'node': 0}        # (the layout C10.SEM decides for the constructor)
+
+        def make_bv_cmp(order):
+            def bv_cmp(xa, xb):
+                # two bit vectors made of the same word bits of the two operands, in the same positions: their numeric order is the
+                # lexicographic order of the fields they consist of, most significant first
+                ks = []
+                swapped = None
+                for i in range(63, -1, -1):
+                    x, y = xa[i], xb[i]
+                    if x == 0 and y == 0:
+                        continue
+                    if not (isinstance(x, tuple) and isinstance(y, tuple)) or x[1] != y[1] or {x[0], y[0]} != {'a', 'b'}:
+                        raise Unmodelled('comparison of bit vectors that are not the same bits of the two operands')
+                    sw = x[0] == 'b'
+                    if swapped is not None and sw != swapped:
+                        raise Unmodelled('comparison mixes the two operands')
+                    swapped = sw
+                    ks.append(x[1])
+                if ks != sorted(ks, reverse=True):
+                    raise Unmodelled('compared bits are not in word order')
+                K = set(ks)
+                rel = '='
+                for f in order_fields:
+                    bits_ = set(range(LAYOUT[f], LAYOUT[f] + FIELDS[f]))
+                    if bits_ <= K:
+                        r = order.cmp('a.' + f, 'b.' + f)
+                        if r != '=':
+                            rel = r
+                            break
+                    elif bits_ & K:
+                        raise Unmodelled('comparison of a part of field %s' % f)
+                if swapped and rel != '=':
+                    rel = '<' if rel == '>' else '>'
+                return rel
+            return bv_cmp
 
         def hook_(interp, name, args, t, body):
             f = accessor.get(strip_generics(name))
@@ -374,10 +467,19 @@ def check_order(ctx, facts, rule, T):
                     break
             order = Order({('a.' + f, 'b.' + f): r for f, r in zip(order_fields, rels)})
             for body, wrap in ((cmpb[0], False), (pcmp[0], True)):
-                it = Interp(facts, order, opaque_call=hook_)
-                a = ('adt', T, 0, [Cell(('sym', 'a'))])
-                b = ('adt', T, 0, [Cell(('sym', 'b'))])
-                r = it.deref_all(it.run_body(body, [('ref', Cell(a)), ('ref', Cell(b))]))
+                try:
+                    it = Interp(facts, order, opaque_call=hook_)
+                    a = ('adt', T, 0, [Cell(('sym', 'a'))])
+                    b = ('adt', T, 0, [Cell(('sym', 'b'))])
+                    r = it.deref_all(it.run_body(body, [('ref', Cell(a)), ('ref', Cell(b))]))
+                except Unmodelled:
+                    # the order is written on the word's bits rather than through the accessors: both words as bit vectors, the real
+                    # accessors / shifts / masks interpreted, comparisons of extracted bits decided field-wise
+                    it = Interp(facts, order, opaque_call=hook)
+                    it.bv_cmp = make_bv_cmp(order)
+                    a = ('adt', T, 0, [Cell(bv_field('a', 64))])
+                    b = ('adt', T, 0, [Cell(bv_field('b', 64))])
+                    r = it.deref_all(it.run_body(body, [('ref', Cell(a)), ('ref', Cell(b))]))
                 if wrap:
                     if r is None or r[0] != 'adt' or r[1] != 'core::option::Option' or r[2] != 1:
                         bad.append('partial_cmp returns None for fields %s' % dict(zip(order_fields, rels)))
